@@ -168,7 +168,7 @@ def install_registry(nodes: dict, spec: dict) -> None:
         node = Node(
             node_id,
             nspec.get("node_type", 17),
-            nspec.get("protocol_version", "2.0"),
+            nspec.get("protocol_version", "1.4"),
             children=children,
             sketch_name=nspec.get("sketch_name", ""),
             sketch_version=nspec.get("sketch_version", ""),
